@@ -163,6 +163,13 @@ def run(ctx):
     if fb is not None and fm is not None:
         c05.header_rule(dep(ctx, "C15", "C05"), fb, fm)
         c05.row_agreement(dep(ctx, "C15", "C05"), fb, fm)
+    # "--counts and the default differ exactly by the per-row normalisation": the divisor is the number of windows counted
+    from . import c12
+    for path_, who_ in (("composition::oligo::OligoComputer::vectorise_one", "composition::oligo::vectorise_one"),
+                        (c12.S2K, "oligocgr::seq_to_kmer")):
+        fa_ = ctx.view(path_)
+        if fa_ is not None:
+            acc_family(dep(ctx, "C15", "C04"), "C04.A", fa_, who_, ("param", param_index(fa_, "seq")), SF("norm"))
     # "the thread option never changes results" for `min`: one locked take per record, each line written whole by
     # one write under the writer lock, the inversion complete after the workers joined
     from . import c10
